@@ -287,8 +287,10 @@ CLAIMED["C09"] = dict(
 )
 CLAIMED["C10"] = dict(
     text="Lean 4 lemmas: _join_delete_insert keeps the rejected text in old-text (C10_join_keeps_both_texts), positions and addressing "
-    "as in C09; one text update end to end at text level (C10_text_update_reject: rejecting every wrapper spells the old text). "
-    "PARTIAL: the composition reject(format(L,S)) ~ L is not proved; decided on every run by the reject-all projection of "
+    "as in C09; the reject invariant at tree level, moves included (C10_reject_invariant: no handler changes the rejected view of the "
+    "working tree - inserted nodes and moved copies dropped, old tags from diff:rename, marked texts read back - so it stays the left "
+    "document without its attributes); one text update end to end at text level (C10_text_update_reject: rejecting every wrapper spells the old text). "
+    "PARTIAL: the attribute annotations, text tags, use_replace and the view after finalize are not proved; decided on every run by the reject-all projection of "
     "the real output against L (values of deleted attributes not recorded; annotations decoded for names / values free of ';' ':'). "
     "Known finding X1.",
     note=_XMLNOTE,
